@@ -20,7 +20,7 @@ import collections
 ID = "C24"
 LEVEL = "exploration"
 IN_PROCESS = False
-CHUNK_TIMEOUT = 1500
+CHUNK_TIMEOUT = 3000
 RULE = (
     "cases as in C18 (SUT corpus x seeds x algorithms x assertion generation NONE/SIMPLE/MUTATION_ANALYSIS x no_xfail x black x "
     "post_process); each case is one real run_pynguin() that writes F1, then (same interpreter, real cluster) "
